@@ -84,10 +84,14 @@ def _run(ids, tier, seeds, rows):
 
 def record(sid, tier, outcome, kind):
     """seeded/RESULTS.json: last outcome of every seeded change per tier (read by scripts/mkstatus.py for DESIGN.md)"""
+    import fcntl
     p = os.path.join(SD, "RESULTS.json")
-    d = json.load(open(p)) if os.path.exists(p) else {}
-    d.setdefault(sid, {})[tier] = dict(outcome=outcome, kind=kind)
-    json.dump(d, open(p, "w"), indent=1, sort_keys=True)
+    with open(p + ".lock", "w") as lk:          # several `seeded.py run` processes may work on disjoint ids at once
+        fcntl.flock(lk, fcntl.LOCK_EX)
+        d = json.load(open(p)) if os.path.exists(p) else {}
+        d.setdefault(sid, {})[tier] = dict(outcome=outcome, kind=kind)
+        json.dump(d, open(p + ".tmp", "w"), indent=1, sort_keys=True)
+        os.replace(p + ".tmp", p)
 
 
 def confirm(sid):
